@@ -334,8 +334,14 @@ func c14JudgeResponse(c c14Case, with, without wire.Response) (string, string) {
 		first = 32 * 1024 // the proxy hands the body on in pieces of its 32 KiB copy buffer
 	}
 	// (a zero-length first write commits the header like any other write)
-	if wantBody && first > c.L && c.Flush != "first" && !c.Empty && !streamedByProxy && with.Status != 413 {
+	if wantBody && first > c.L && c.Flush != "first" && c.Flush != "slow" && !c.Empty && !streamedByProxy && with.Status != 413 {
 		return "C14/over-limit/not-413-although-nothing-was-sent", fmt.Sprintf("the first write alone (%d bytes) exceeds the limit %d before anything was sent, but the client got status %d", first, c.L, with.Status)
+	}
+	// a declared length gives the excess away before anything is sent, whenever the header goes
+	// out: with the first write, with an earlier flush of the handler, or with the flush by
+	// which the reverse proxy hands on the head of a response that is slow to produce its body
+	if wantBody && c.Declare && with.Status != 413 {
+		return "C14/over-limit/declared-length-not-413", fmt.Sprintf("the response declares Content-Length %d against the limit %d (flush policy %q), but the client got status %d and %d body bytes", total, c.L, c.Flush, with.Status, len(with.Body))
 	}
 	if with.Status == 413 && with.Err != "" {
 		return "C14/over-limit/413-response-broken", "the 413 response is malformed for a real client: " + with.Err
@@ -418,7 +424,7 @@ func TestVerifC14(t *testing.T) {
 									continue
 								}
 								for _, decl := range []bool{false, true} {
-									if decl && (fl != "none" || len(comp) > 2) {
+									if decl && (len(comp) > 2 || fl != "none" && n <= L) {
 										continue
 									}
 									run(c14Case{L: L, Position: pos, Method: method, Status: status, Comp: comp, Flush: fl, Declare: decl})
@@ -740,6 +746,29 @@ func TestVerifC14(t *testing.T) {
 								r.Violate(strings.Replace(key, "C14/", "C14/proxied/", 1), fmt.Sprintf("%s: %s", c, what), n*10+1, map[string]interface{}{"engine": "W", "test": "TestVerifC14", "mount": "proxy", "case": c})
 							}
 						}
+					}
+				}
+			}
+			// responses that declare their length and are slow to produce their body: the proxy
+			// hands the head on (a flush through the chain) before the first body byte arrives
+			for _, status := range []int{200, 404} {
+				for _, n := range []int{1, L, L + 1, L + 3} {
+					sc := &wire.Script{Status: status, Header: []wire.HeaderLine{{"Content-Type", "text/plain"}}, Parts: partsOf([]int{n}, 5), DeclareLen: true, FlushFirst: true, HeadDelay: 250 * time.Millisecond}
+					req := &wire.Request{Method: "GET", Target: "/p", Header: []wire.HeaderLine{{"Host", "x.test"}}, NoBody: true}
+					be.Next(sc)
+					rw := ew.do(req, dl)
+					be.Next(sc)
+					ro := eo.do(req, dl)
+					be.Next(nil)
+					evals++
+					c := c14Case{L: L, Position: "proxy-" + pos, Method: "GET", Status: status, Comp: []int{n}, Flush: "slow", Declare: true}
+					key, what := c14JudgeResponse(c, rw, ro)
+					if key == "tool" {
+						t.Fatalf("%s: %s", c, what)
+					}
+					outs.Add(fmt.Sprintf("proxy-slow/%d->%d/%v", status, rw.Status, key == ""))
+					if key != "" {
+						r.Violate(strings.Replace(key, "C14/", "C14/proxied/", 1), fmt.Sprintf("%s: %s", c, what), n*10+2, map[string]interface{}{"engine": "W", "test": "TestVerifC14", "mount": "proxy", "case": c})
 					}
 				}
 			}
